@@ -101,7 +101,6 @@ pub struct SView {
 }
 
 pub struct State {
-    pub scn: Arc<Scenario>,
     pub verbose: bool,
     pub s2n_port: u16,
     pub flows: BTreeMap<(u64, Side), Flow>,
@@ -137,7 +136,7 @@ impl State {
             );
         }
         Arc::new(Mutex::new(State {
-            scn,
+            // (the scenario itself travels with the caller)
             verbose,
             s2n_port: 0,
             flows,
